@@ -237,3 +237,25 @@ Proof.
   exact (conj rank_comparator_source_shape (conj rank_comparator_law (conj before_tol_1 tolerance_comparator_refuted_lemma))).
 Qed.
 Print Assumptions rank_needs_total_order.
+
+(** Round 7.  [verify_evidence_perm_invariant] assumes one piece of evidence per validator.  That premise is
+    established by OTHER code — QueuedSignedMessage.AddEvidence replaces a validator's earlier evidence — and holds
+    as long as the replacement goes by the validator address alone: the rule is read from the source on every check
+    (any further condition is an unknown shape, and then the VerifyEvidence loop is no longer classified:
+    [Ambient.premise_ok]); over every sequence of submissions the stored evidence has one entry per validator and
+    the tally is independent of the map order; with "replace only evidence of the same proof type" two groups can
+    both hold 2/3 and the winner follows the order (witness replayed on the real keepers by harness/c08). *)
+Theorem evidence_tally_premise :
+  Gen.C08.evidence_replace_rule = evidence_rule_expected /\
+  (forall subs, NoDup (map ev_val (fold_left add_evidence subs []))) /\
+  (forall (gk : Z -> Z -> Z) a a' sn subs, amb_ok a -> amb_ok a' ->
+     (0 < sn_total sn /\ sn_total sn = zsum (map snd (sn_vals sn)) /\ Forall (fun p => 0 <= snd p) (sn_vals sn)) ->
+     verify_evidence Z.eqb gk (ord_groups a) sn (fold_left add_evidence subs []) =
+     verify_evidence Z.eqb gk (ord_groups a') sn (fold_left add_evidence subs [])) /\
+  (exists sn subs, verify_evidence Z.eqb pair_key (fun l => l) sn (fold_left add_evidence_by_type subs []) <>
+                   verify_evidence Z.eqb pair_key (@rev _) sn (fold_left add_evidence_by_type subs [])).
+Proof.
+  refine (conj evidence_replace_rule_source_shape (conj evidence_one_per_validator_lemma (conj tally_after_submissions_amb_indep _))).
+  eexists _, _. exact (proj2 evidence_premise_needed).
+Qed.
+Print Assumptions evidence_tally_premise.
